@@ -11,6 +11,7 @@ import PV.Model.Corr
 import PV.Model.Format
 import PV.Spec.WF
 import PV.Model.Combine
+import PV.Model.Bytes
 
 open Lean PV PV.Wire
 
@@ -215,6 +216,39 @@ def opCombine (j : Json) : Except String Json := do
   | .ok o => pure (obj [("obs", enc o)])
   | .error e => pure (obj [("exc", .str (reprStr e))])
 
+def hexVal (c : Char) : Nat :=
+  if c.isDigit then c.toNat - '0'.toNat else if 'a' ≤ c && c ≤ 'f' then c.toNat - 'a'.toNat + 10 else 0
+
+def unhex (s : String) : List UInt8 :=
+  let rec go : List Char → List UInt8
+    | a :: b :: r => UInt8.ofNat (hexVal a * 16 + hexVal b) :: go r
+    | _ => []
+  go s.toList
+
+/-- op "readfile": {"hex": bytes, "H": header size, "P": payload size, "chunked": bool} ->
+    {"cfgs": [...]} | {"exc": text};  op "renumber": {"cfgs", "thermal"};  op "select": {...} -/
+def opReadFile (j : Json) : Except String Json := do
+  let file := unhex (← get j "hex")
+  let H : Nat ← get j "H"
+  let P : Nat ← get j "P"
+  let chunked : Bool ← get j "chunked"
+  match Bytes.readFile H (fun _ => some P) chunked file with
+  | .ok (_, rs) => pure (obj [("cfgs", enc (rs.map (·.cfg)))])
+  | .error e => pure (obj [("exc", .str (reprStr e))])
+
+def opRenumber (j : Json) : Except String Json := do
+  let cfgs : List Int ← get j "cfgs"
+  let thermal : Bool ← get j "thermal"
+  let rstart : Option Int ← get j "r_start"
+  let rstop : Option Int ← get j "r_stop"
+  let rstep : Nat ← get j "r_step"
+  match Bytes.renumber cfgs thermal with
+  | none => pure (obj [("exc", .str "renumber")])
+  | some cl =>
+    match Bytes.select cl cl rstart rstop rstep with
+    | none => pure (obj [("exc", .str "select")])
+    | some (sel, _) => pure (obj [("configlist", enc cl), ("selected", enc sel)])
+
 def dispatch (op : String) (j : Json) : Except String Json :=
   match op with
   | "gamma" => opGamma false j
@@ -225,6 +259,8 @@ def dispatch (op : String) (j : Json) : Except String Json :=
   | "fmt" => opFmt j
   | "wf" => opWf j
   | "combine" => opCombine j
+  | "readfile" => opReadFile j
+  | "renumber" => opRenumber j
   | "mkobs" => opMkObs j
   | "ping" => pure (.str "pong")
   | _ => .error s!"unknown op {op}"
